@@ -158,6 +158,19 @@ def run(ctx, rep):
             ms2 = [m for m, _ in iter_chain(srch[0])[1]]
             verdict_names = {('iter', 'rposition'): 'latest-first', ('iter', 'position'): 'earliest-first', ('iter', 'rev', 'position'): 'latest-first(rev)',
                              ('iter', 'enumerate', 'rev', 'find'): 'latest-first', ('iter', 'enumerate', 'filter', 'last'): 'latest-first'}.get(tuple(ms2))
+    if verdict_scopes is None and verdict_names in (None,):
+        # one chain over the names of all open scopes laid end to end (`symbols.iter().flatten()`): outer scopes first, a scope's
+        # names in declaration order.  The LAST match is the innermost, latest declaration; the first match the outermost, oldest
+        for s_ in find_all(res['body'], lambda n: n.get('k') == 'mcall' and n['method'] in ('last', 'next', 'find', 'position', 'find_map', 'max_by_key', 'next_back')):
+            base_, ch_ = iter_chain(s_)
+            ms_ = [m for m, _ in ch_]
+            if 'flatten' not in ms_ or 'symbols' not in render(base_):
+                continue
+            core_ = ms_[:ms_.index(s_['method']) + 1] if s_['method'] in ms_ else ms_
+            if core_ in (['iter', 'flatten', 'enumerate', 'filter', 'last'], ['iter', 'flatten', 'enumerate', 'filter', 'next_back']):
+                verdict_scopes, verdict_names = 'reverse', 'latest-first'
+            elif core_ in (['iter', 'flatten', 'position'], ['iter', 'flatten', 'enumerate', 'find'], ['iter', 'flatten', 'enumerate', 'filter', 'next']):
+                verdict_scopes, verdict_names = 'forward', 'earliest-first'
     if verdict_scopes is None or verdict_names is None:
         raise CheckerError('R09.2: unrecognised lookup idiom in Context::resolve (scopes: %s, names: %s)' % (verdict_scopes, verdict_names))
     rep.ob(verdict_scopes == 'reverse', 'R09.2', 'symbols::Context::resolve', 'scope order', 'scopes are searched innermost first (%s)' % verdict_scopes, 'src/symbols.rs:%d' % res['line'])
@@ -266,15 +279,50 @@ def run(ctx, rep):
     rep.ob(ok, 'R09.5', 'compiler::Compiler::compile_expression', 'Expr::Function order', 'define(name); new_context(); define(parameters in order); body; leave_context()', 'src/compiler.rs')
 
 
+def closure_expand(F, g, v, depth=0):
+    """rewrite a symbolic value of closure `g` in terms of the function the closure is written in: a captured variable becomes
+    what it was built with, the closure's own argument becomes ('payload', receiver) of the combinator call it was handed to
+    (`opt.and_then(|x| ..)`, `opt.map(..)`, `opt.or_else(..)`); applied recursively through nested closures"""
+    if '{closure' not in g.path or depth > 6:
+        return v
+    ppath = g.path.rsplit('::{closure', 1)[0]
+    parent = F.fns.get(ppath)
+    if parent is None:
+        return v
+    agg = None
+    for b, si, st in parent.stmts():
+        if st['k'] == 'assign' and st['rv']['k'] == 'aggregate' and st['rv'].get('closure') == g.path:
+            agg = st
+    recv = None
+    if agg is not None:
+        for b, t in parent.calls():
+            for a in t['args'][1:]:
+                d = parent.def_rvalue(a)
+                if d and d[0] == 'assign' and d[3] is agg['rv']:
+                    recv = sym(parent, t['args'][0])
+
+    def sub(x):
+        if not isinstance(x, tuple):
+            return x
+        if x == ('param', 2) and recv is not None:
+            return ('payload', closure_expand(F, parent, recv, depth + 1))
+        if len(x) == 3 and x[0] == 'field' and x[1] in (('param', 1), ('deref', ('param', 1))) and str(x[2]).isdigit() and agg is not None and int(x[2]) < len(agg['rv']['ops']):
+            return closure_expand(F, parent, sym(parent, agg['rv']['ops'][int(x[2])]), depth + 1)
+        return tuple(sub(y) for y in x)
+    return sub(v)
+
+
 def check_visibility(ctx, rep, rule):
     """SymbolTable::resolve consults exactly the current context and the global one: a Local symbol therefore always
     belongs to the frame of the function being compiled (its index is below that frame's size)"""
     F = ctx.facts()
     sr = F.fn('symbols::SymbolTable::resolve')
     consulted = []
-    for b, t in sr.calls():
+    family = [sr] + [g for k, g in sorted(F.fns.items()) if k.startswith(sr.path + '::{closure')]
+    for g in family:
+      for b, t in g.calls():
         if callee_name(t) == 'symbols::Context::resolve':
-            a = str(sym(sr, t['args'][0]))
+            a = str(closure_expand(F, g, sym(g, t['args'][0])))
             if 'split_last' in a and 'contexts' in a:
                 # (last, prefix) of the context stack: the prefix's first element is contexts[0] whenever it exists
                 consulted.append('global' if '::first' in a else 'current')
